@@ -17,9 +17,9 @@ Lemma rank_bound s : rank s < 6.
 Proof. destruct s; simpl; lia. Qed.
 
 Lemma filt_holds_aux th r f :
-  filt th f r = holds th f (r_sev r) /\ filt th (FNot f) r = negb (holds th f (r_sev r)).
+  filt th f r = holds th f (r_sev r) (r_tag r) /\ filt th (FNot f) r = negb (holds th f (r_sev r) (r_tag r)).
 Proof.
-  induction f as [|k|a [IHa IHa'] b [IHb IHb']|a [IHa IHa'] b [IHb IHb']|a [IHa IHa']].
+  induction f as [|k|a [IHa IHa'] b [IHb IHb']|a [IHa IHa'] b [IHb IHb']|a [IHa IHa']|acc t].
   - split; reflexivity.
   - split; reflexivity.
   - split; simpl; rewrite IHa, IHb; reflexivity.
@@ -27,10 +27,12 @@ Proof.
   - split; [exact IHa'|].
     change (filt th (FNot (FNot a)) r) with (filt th a r).
     rewrite IHa. simpl. now rewrite negb_involutive.
+  - split; reflexivity.
 Qed.
 
-(* the filter code computes exactly the boolean formula (the double-negation specialisation included) *)
-Lemma filt_holds th f r : filt th f r = holds th f (r_sev r).
+(* the filter code computes exactly the boolean formula (the double-negation specialisation included) over the severity
+   AND THE TAG of the record it is handed *)
+Lemma filt_holds th f r : filt th f r = holds th f (r_sev r) (r_tag r).
 Proof. apply filt_holds_aux. Qed.
 
 Lemma filter_algebra th r :
@@ -45,8 +47,8 @@ Proof.
   intros a. rewrite !filt_holds. reflexivity.
 Qed.
 
-Lemma holds_threshold_only th th' f sv :
-  (forall k, th k = th' k) -> holds th f sv = holds th' f sv.
+Lemma holds_threshold_only th th' f sv tg :
+  (forall k, th k = th' k) -> holds th f sv tg = holds th' f sv tg.
 Proof.
   intros E. induction f; simpl; try reflexivity.
   - now rewrite E.
@@ -223,10 +225,10 @@ Proof. cbn [ss_destroy liveb ss_r ss_s]. apply log_record_delivery. Qed.
 
 Lemma construct_spec th lg sv tag :
   ss_construct th lg sv tag
-  = if holds (th (lg_rec lg)) (lg_filter lg) sv then live (mkRecord sv (rec_tag lg tag) []) [] else dead.
+  = if holds (th (lg_rec lg)) (lg_filter lg) sv (rec_tag lg tag) then live (mkRecord sv (rec_tag lg tag) []) [] else dead.
 Proof.
-  unfold ss_construct. rewrite filt_holds, fresh_record. simpl r_sev.
-  destruct (holds (th (lg_rec lg)) (lg_filter lg) sv); reflexivity.
+  unfold ss_construct. rewrite filt_holds, fresh_record. simpl r_sev; simpl r_tag.
+  destruct (holds (th (lg_rec lg)) (lg_filter lg) sv (rec_tag lg tag)); reflexivity.
 Qed.
 
 (* ---------------------------------------------------------------- form 1 *)
@@ -236,7 +238,7 @@ Theorem exec_one_spec cfg th lg sv tag its :
 Proof.
   unfold exec_one, spec_stmt, enabled, stream_kind. rewrite sev_ge_gate.
   destruct (gate_open (c_min cfg) sv); [|reflexivity]. simpl andb.
-  rewrite construct_spec; unfold live. destruct (holds (th (lg_rec lg)) (lg_filter lg) sv).
+  rewrite construct_spec; unfold live. destruct (holds (th (lg_rec lg)) (lg_filter lg) sv (rec_tag lg tag)).
   - rewrite one_chain_live. cbn [flat_map]. rewrite (app_nil_r (repeat dead (length its))), destroy_deads.
     rewrite app_nil_r. cbn [app]. rewrite destroy_live. reflexivity.
   - rewrite one_chain_dead. cbn [flat_map]. rewrite app_nil_r, destroy_deads. reflexivity.
@@ -257,7 +259,7 @@ Proof.
 Qed.
 
 Lemma one_chain_prefix th lg sv tag pre :
-  holds (th (lg_rec lg)) (lg_filter lg) sv = true ->
+  holds (th (lg_rec lg)) (lg_filter lg) sv (rec_tag lg tag) = true ->
   exists olds,
     one_chain (ss_construct th lg sv tag) [] pre
     = ((liveb (mkRecord sv (rec_tag lg tag) []) (message pre) (bad_after false pre), olds), map Call (calls_of pre)).
@@ -289,7 +291,7 @@ Lemma made_stream_life cfg th lg sv tag its :
 Proof.
   unfold make_stream, spec_stmt, enabled, stream_kind. rewrite sev_ge_gate.
   destruct (gate_open (c_min cfg) sv); cbn [andb].
-  - rewrite construct_spec; unfold live. destruct (holds (th (lg_rec lg)) (lg_filter lg) sv).
+  - rewrite construct_spec; unfold live. destruct (holds (th (lg_rec lg)) (lg_filter lg) sv (rec_tag lg tag)).
     + rewrite stream_puts_live. cbn [fst snd stream_destroy]. rewrite destroy_live. reflexivity.
     + rewrite stream_puts_dead. reflexivity.
   - rewrite stream_puts_null. reflexivity.
@@ -317,7 +319,7 @@ Theorem named_moved_same cfg th lg sv tag pre post :
 Proof.
   unfold exec_named_moved, make_stream, spec_stmt, enabled, stream_kind. rewrite sev_ge_gate.
   destruct (gate_open (c_min cfg) sv); cbn [andb].
-  - rewrite construct_spec; unfold live. destruct (holds (th (lg_rec lg)) (lg_filter lg) sv).
+  - rewrite construct_spec; unfold live. destruct (holds (th (lg_rec lg)) (lg_filter lg) sv (rec_tag lg tag)).
     + rewrite stream_puts_live. cbn [ss_move liveb ss_r ss_s ss_bad].
       change (mkSS (Some ?r) (Some ?x) ?y) with (liveb r x y). rewrite stream_puts_live.
       cbn [stream_destroy]. rewrite destroy_live. change (mkSS None None false) with dead. rewrite destroy_dead, app_nil_r.
@@ -334,7 +336,7 @@ Theorem named_from_chain_same cfg th lg sv tag pre post :
 Proof.
   unfold exec_named_from_chain, spec_stmt, enabled, stream_kind. rewrite sev_ge_gate.
   destruct (gate_open (c_min cfg) sv); cbn [andb]; [|reflexivity].
-  rewrite construct_spec; unfold live. destruct (holds (th (lg_rec lg)) (lg_filter lg) sv).
+  rewrite construct_spec; unfold live. destruct (holds (th (lg_rec lg)) (lg_filter lg) sv (rec_tag lg tag)).
   - rewrite one_chain_live. rewrite app_nil_r, destroy_deads. rewrite stream_puts_live.
     cbn [stream_destroy app]. rewrite destroy_live.
     unfold delivered, message. rewrite msg_from_app, calls_of_app, map_app. cbn [app]. now rewrite app_assoc.
@@ -407,11 +409,11 @@ Proof.
 Qed.
 
 Lemma make_stream_rel cfg th lg sv tag :
-  stream_rel (mkL lg sv (rec_tag lg tag) (enabled (c_min cfg) th lg sv) [] false) (make_stream cfg th lg sv tag).
+  stream_rel (mkL lg sv (rec_tag lg tag) (enabled (c_min cfg) th lg sv tag) [] false) (make_stream cfg th lg sv tag).
 Proof.
   unfold stream_rel, make_stream, enabled, stream_kind. cbn [l_on l_sev l_tag l_text].
   rewrite sev_ge_gate. destruct (gate_open (c_min cfg) sv); cbn [andb].
-  - rewrite construct_spec; unfold live. destruct (holds (th (lg_rec lg)) (lg_filter lg) sv); [reflexivity | now right].
+  - rewrite construct_spec; unfold live. destruct (holds (th (lg_rec lg)) (lg_filter lg) sv (rec_tag lg tag)); [reflexivity | now right].
   - now left.
 Qed.
 
@@ -634,9 +636,9 @@ Qed.
 (* member i of the sequence receives the record exactly once iff the statement is enabled (and i is a member) *)
 Theorem sink_exactly_once cfg th lg sv tag its i :
   count (is_sink_of i) (spec_stmt cfg th lg sv tag its)
-  = if enabled (c_min cfg) th lg sv && (i <? lg_sinks lg) then 1 else 0.
+  = if enabled (c_min cfg) th lg sv tag && (i <? lg_sinks lg) then 1 else 0.
 Proof.
-  unfold spec_stmt. destruct (enabled (c_min cfg) th lg sv); [|reflexivity].
+  unfold spec_stmt. destruct (enabled (c_min cfg) th lg sv tag); [|reflexivity].
   rewrite count_app. unfold count at 1. rewrite filter_calls_none by reflexivity.
   unfold delivery. change (count (is_sink_of i) (?x :: ?l)) with (count (is_sink_of i) ([x] ++ l)).
   rewrite count_app, count_sinks. cbn. reflexivity.
@@ -647,9 +649,9 @@ Lemma filter_sinks_none (p : event -> bool) sv t l :
 Proof. intros H. induction l; simpl; [reflexivity|]. now rewrite H. Qed.
 
 Theorem format_exactly_once cfg th lg sv tag its :
-  count is_format (spec_stmt cfg th lg sv tag its) = if enabled (c_min cfg) th lg sv then 1 else 0.
+  count is_format (spec_stmt cfg th lg sv tag its) = if enabled (c_min cfg) th lg sv tag then 1 else 0.
 Proof.
-  unfold spec_stmt. destruct (enabled (c_min cfg) th lg sv); [|reflexivity].
+  unfold spec_stmt. destruct (enabled (c_min cfg) th lg sv tag); [|reflexivity].
   rewrite count_app. unfold count. rewrite filter_calls_none by reflexivity.
   unfold delivery. cbn [filter is_format]. rewrite filter_sinks_none by reflexivity. reflexivity.
 Qed.
@@ -667,9 +669,9 @@ Proof. induction ids; simpl; auto. Qed.
 (* a sequence sink forwards to each member once, in declaration order *)
 Theorem sink_order cfg th lg sv tag its :
   sink_members (spec_stmt cfg th lg sv tag its)
-  = if enabled (c_min cfg) th lg sv then seq 0 (lg_sinks lg) else [].
+  = if enabled (c_min cfg) th lg sv tag then seq 0 (lg_sinks lg) else [].
 Proof.
-  unfold spec_stmt. destruct (enabled (c_min cfg) th lg sv); [|reflexivity].
+  unfold spec_stmt. destruct (enabled (c_min cfg) th lg sv tag); [|reflexivity].
   unfold sink_members. rewrite flat_map_app. fold (sink_members (map Call (calls_of its))).
   rewrite sink_members_calls. unfold delivery. cbn [flat_map app].
   apply sink_members_sinks.
@@ -685,7 +687,7 @@ Theorem delivered_content cfg th lg sv tag its e :
   | Fault => False
   end.
 Proof.
-  unfold spec_stmt. destruct (enabled (c_min cfg) th lg sv); [|intros []].
+  unfold spec_stmt. destruct (enabled (c_min cfg) th lg sv tag); [|intros []].
   rewrite in_app_iff. intros [H|H].
   - apply in_map_iff in H as (id & <- & Hid). exact Hid.
   - unfold delivery in H. destruct H as [<-|H]; [reflexivity|].
@@ -699,9 +701,9 @@ Proof. induction ids; simpl; [reflexivity|]. now rewrite IHids. Qed.
 
 Theorem calls_exactly cfg th lg sv tag its :
   filter is_call (spec_stmt cfg th lg sv tag its)
-  = if enabled (c_min cfg) th lg sv then map Call (calls_of its) else [].
+  = if enabled (c_min cfg) th lg sv tag then map Call (calls_of its) else [].
 Proof.
-  unfold spec_stmt. destruct (enabled (c_min cfg) th lg sv); [|reflexivity].
+  unfold spec_stmt. destruct (enabled (c_min cfg) th lg sv tag); [|reflexivity].
   rewrite filter_app, filter_calls_all. unfold delivery. cbn [filter is_call].
   rewrite filter_sinks_none by reflexivity. apply app_nil_r.
 Qed.
@@ -717,15 +719,15 @@ Qed.
 (* each callable is called as many times as it is streamed (once, when it is streamed once) — or never *)
 Theorem calls_once_each cfg th lg sv tag its id :
   count (is_call_of id) (spec_stmt cfg th lg sv tag its)
-  = if enabled (c_min cfg) th lg sv then count_occ Nat.eq_dec (calls_of its) id else 0.
+  = if enabled (c_min cfg) th lg sv tag then count_occ Nat.eq_dec (calls_of its) id else 0.
 Proof.
-  unfold spec_stmt. destruct (enabled (c_min cfg) th lg sv); [|reflexivity].
+  unfold spec_stmt. destruct (enabled (c_min cfg) th lg sv tag); [|reflexivity].
   rewrite count_app, count_call_of. unfold delivery, count. cbn [filter is_call_of].
   rewrite filter_sinks_none by reflexivity. cbn. lia.
 Qed.
 
 Theorem disabled_nothing cfg th lg sv tag its :
-  enabled (c_min cfg) th lg sv = false -> spec_stmt cfg th lg sv tag its = [].
+  enabled (c_min cfg) th lg sv tag = false -> spec_stmt cfg th lg sv tag its = [].
 Proof. unfold spec_stmt. now intros ->. Qed.
 
 (* below the compile-time minimum the statement's object is a null_stream, which discards every insertion *)
@@ -757,11 +759,11 @@ Qed.
 
 (* a stream made by a logger call takes insertions iff the statement is enabled, and stays that way *)
 Theorem live_iff_enabled cfg th lg sv tag its :
-  stream_live (fst (stream_puts (make_stream cfg th lg sv tag) its)) = enabled (c_min cfg) th lg sv.
+  stream_live (fst (stream_puts (make_stream cfg th lg sv tag) its)) = enabled (c_min cfg) th lg sv tag.
 Proof.
   unfold make_stream, enabled, stream_kind. rewrite sev_ge_gate.
   destruct (gate_open (c_min cfg) sv); cbn [andb].
-  - rewrite construct_spec; unfold live. destruct (holds (th (lg_rec lg)) (lg_filter lg) sv).
+  - rewrite construct_spec; unfold live. destruct (holds (th (lg_rec lg)) (lg_filter lg) sv (rec_tag lg tag)).
     + rewrite stream_puts_live. reflexivity.
     + rewrite stream_puts_dead. reflexivity.
   - rewrite stream_puts_null. reflexivity.
@@ -844,21 +846,21 @@ Proof.
   intros H. unfold make_stream, ss_construct. now rewrite (set_threshold_other th rc k s (lg_rec lg) H).
 Qed.
 
-Theorem thresholds_independent_enabled min th rc k s lg sv :
-  lg_rec lg <> rc -> enabled min (set_threshold th rc k s) lg sv = enabled min th lg sv.
+Theorem thresholds_independent_enabled min th rc k s lg sv tag :
+  lg_rec lg <> rc -> enabled min (set_threshold th rc k s) lg sv tag = enabled min th lg sv tag.
 Proof. intros H. unfold enabled. now rewrite (set_threshold_other th rc k s (lg_rec lg) H). Qed.
 
 Theorem one_sink_exactly_once cfg th lg sv tag its i :
   count (is_sink_of i) (exec_one cfg th lg sv tag its)
-  = if enabled (c_min cfg) th lg sv && (i <? lg_sinks lg) then 1 else 0.
+  = if enabled (c_min cfg) th lg sv tag && (i <? lg_sinks lg) then 1 else 0.
 Proof. rewrite exec_one_spec. apply sink_exactly_once. Qed.
 
 Theorem one_format_exactly_once cfg th lg sv tag its :
-  count is_format (exec_one cfg th lg sv tag its) = if enabled (c_min cfg) th lg sv then 1 else 0.
+  count is_format (exec_one cfg th lg sv tag its) = if enabled (c_min cfg) th lg sv tag then 1 else 0.
 Proof. rewrite exec_one_spec. apply format_exactly_once. Qed.
 
 Theorem one_sink_order cfg th lg sv tag its :
-  sink_members (exec_one cfg th lg sv tag its) = if enabled (c_min cfg) th lg sv then seq 0 (lg_sinks lg) else [].
+  sink_members (exec_one cfg th lg sv tag its) = if enabled (c_min cfg) th lg sv tag then seq 0 (lg_sinks lg) else [].
 Proof. rewrite exec_one_spec. apply sink_order. Qed.
 
 Theorem one_delivered_content cfg th lg sv tag its e :
@@ -873,26 +875,26 @@ Proof. rewrite exec_one_spec. apply delivered_content. Qed.
 
 Theorem one_calls_exactly cfg th lg sv tag its :
   filter is_call (exec_one cfg th lg sv tag its)
-  = if enabled (c_min cfg) th lg sv then map Call (calls_of its) else [].
+  = if enabled (c_min cfg) th lg sv tag then map Call (calls_of its) else [].
 Proof. rewrite exec_one_spec. apply calls_exactly. Qed.
 
 Theorem one_calls_once_each cfg th lg sv tag its id :
   count (is_call_of id) (exec_one cfg th lg sv tag its)
-  = if enabled (c_min cfg) th lg sv then count_occ Nat.eq_dec (calls_of its) id else 0.
+  = if enabled (c_min cfg) th lg sv tag then count_occ Nat.eq_dec (calls_of its) id else 0.
 Proof. rewrite exec_one_spec. apply calls_once_each. Qed.
 
-Lemma not_enabled min th lg sv :
-  gate_open min sv = false \/ holds (th (lg_rec lg)) (lg_filter lg) sv = false -> enabled min th lg sv = false.
+Lemma not_enabled min th lg sv tag :
+  gate_open min sv = false \/ holds (th (lg_rec lg)) (lg_filter lg) sv (rec_tag lg tag) = false -> enabled min th lg sv tag = false.
 Proof. unfold enabled. intros [-> | ->]; [reflexivity | apply andb_false_r]. Qed.
 
 Theorem one_disabled_nothing cfg th lg sv tag its :
-  gate_open (c_min cfg) sv = false \/ holds (th (lg_rec lg)) (lg_filter lg) sv = false ->
+  gate_open (c_min cfg) sv = false \/ holds (th (lg_rec lg)) (lg_filter lg) sv (rec_tag lg tag) = false ->
   exec_one cfg th lg sv tag its = [].
 Proof. intros H. rewrite exec_one_spec. apply disabled_nothing, not_enabled, H. Qed.
 
 Theorem named_disabled_nothing cfg w v lg sv tag its :
   w_slots w v = None ->
-  gate_open (c_min cfg) sv = false \/ holds (w_th w (lg_rec lg)) (lg_filter lg) sv = false ->
+  gate_open (c_min cfg) sv = false \/ holds (w_th w (lg_rec lg)) (lg_filter lg) sv (rec_tag lg tag) = false ->
   snd (exec_prog cfg w (named_ops v lg sv tag its)) = [].
 Proof.
   intros Hfree H. destruct (named_spec cfg w v lg sv tag its Hfree) as (w' & E & _). rewrite E.
@@ -914,9 +916,9 @@ Proof. unfold received. apply flat_map_app. Qed.
 
 Lemma formatted_stmt cfg th lg sv tag its :
   formatted (spec_stmt cfg th lg sv tag its)
-  = if enabled (c_min cfg) th lg sv then [delivered lg sv tag its] else [].
+  = if enabled (c_min cfg) th lg sv tag then [delivered lg sv tag its] else [].
 Proof.
-  unfold spec_stmt. destruct (enabled (c_min cfg) th lg sv); [|reflexivity].
+  unfold spec_stmt. destruct (enabled (c_min cfg) th lg sv tag); [|reflexivity].
   rewrite formatted_app. unfold delivery.
   assert (H1 : forall ids, formatted (map Call ids) = []) by (induction ids; simpl; auto).
   assert (H2 : forall s t l, formatted (map (fun j => Sink j s t) l) = []) by (induction l; simpl; auto).
@@ -949,10 +951,10 @@ Qed.
 
 Lemma received_stmt cfg th lg sv tag its i :
   received i (spec_stmt cfg th lg sv tag its)
-  = if enabled (c_min cfg) th lg sv && (i <? lg_sinks lg)
+  = if enabled (c_min cfg) th lg sv tag && (i <? lg_sinks lg)
     then [(sv, c_fmt cfg (delivered lg sv tag its))] else [].
 Proof.
-  unfold spec_stmt. destruct (enabled (c_min cfg) th lg sv); [|reflexivity].
+  unfold spec_stmt. destruct (enabled (c_min cfg) th lg sv tag); [|reflexivity].
   rewrite received_app. unfold delivery.
   assert (H1 : forall ids, received i (map Call ids) = []) by (induction ids; simpl; auto).
   rewrite H1. change (received i (Format ?r :: ?l)) with (received i l).
@@ -970,9 +972,9 @@ Proof.
   destruct x as [rc k s|f lg sv tag its]; cbn [spec_seq arrivals]; [apply IH|].
   destruct (IH th) as [IH1 IH2]. split.
   - rewrite formatted_app, formatted_stmt, map_app, IH1.
-    destruct (enabled (c_min cfg) th lg sv); reflexivity.
+    destruct (enabled (c_min cfg) th lg sv tag); reflexivity.
   - intros i. rewrite received_app, received_stmt, filter_app, map_app, IH2.
-    destruct (enabled (c_min cfg) th lg sv); cbn [andb filter fst snd]; [|reflexivity].
+    destruct (enabled (c_min cfg) th lg sv tag); cbn [andb filter fst snd]; [|reflexivity].
     destruct (i <? lg_sinks lg); reflexivity.
 Qed.
 
@@ -1024,3 +1026,49 @@ Qed.
 (* s->str() is never reached with s == nullptr: a record is owned only together with a buffer *)
 Theorem run_no_fault cfg ops : ~ In Fault (run cfg ops).
 Proof. rewrite run_refines_spec. apply spec_prog_no_fault. Qed.
+
+(* ---------------------------------------------------------------- the run-time filter decides about the COMPLETE record *)
+
+(* the verdict does not depend on the message (still empty when the filter is asked), only on severity and tag *)
+Lemma filt_ignores_message th f sv tg m m' : filt th f (mkRecord sv tg m) = filt th f (mkRecord sv tg m').
+Proof. now rewrite !filt_holds. Qed.
+
+(* smart_stream's constructor: the filter is asked about the record with the statement's severity AND ITS TAG already set *)
+Theorem construct_verdict_on_complete_record th lg sv tag :
+  ss_construct th lg sv tag
+  = if filt (th (lg_rec lg)) (lg_filter lg) (mkRecord sv (rec_tag lg tag) [])
+    then mkSS (Some (mkRecord sv (rec_tag lg tag) [])) (Some []) false else mkSS None None false.
+Proof. rewrite construct_spec, filt_holds. reflexivity. Qed.
+
+(* enabled = gate open and the filter accepts the very record that is delivered (severity and tag as delivered) *)
+Theorem enabled_iff_filter_accepts_delivered min th lg sv tag its :
+  enabled min th lg sv tag = gate_open min sv && filt (th (lg_rec lg)) (lg_filter lg) (delivered lg sv tag its).
+Proof. unfold enabled, delivered. now rewrite filt_holds. Qed.
+
+Theorem live_iff_filter_on_complete_record cfg th lg sv tag its :
+  stream_live (fst (stream_puts (make_stream cfg th lg sv tag) its))
+  = gate_open (c_min cfg) sv && filt (th (lg_rec lg)) (lg_filter lg) (mkRecord sv (rec_tag lg tag) []).
+Proof. rewrite live_iff_enabled. unfold enabled. now rewrite filt_holds. Qed.
+
+(* a statement whose complete record (tag included) the filter rejects: nothing happens, in both forms *)
+Theorem rejected_on_complete_record_nothing cfg th lg sv tag its :
+  filt (th (lg_rec lg)) (lg_filter lg) (mkRecord sv (rec_tag lg tag) []) = false ->
+  exec_one cfg th lg sv tag its = [] /\ exec_named cfg th lg sv tag its = [].
+Proof.
+  intros H. rewrite filt_holds in H. cbn [r_sev r_tag] in H.
+  rewrite exec_named_spec, exec_one_spec. split; apply disabled_nothing, not_enabled; right; exact H.
+Qed.
+
+(* towers of not_filter: n negations are a negation when n is odd and nothing when n is even (whatever the specialisation
+   not_filter<not_filter<F>> does in between) — over every leaf kind *)
+Lemma holds_not_tower th f sv tg n :
+  holds th (Nat.iter n FNot f) sv tg = if Nat.even n then holds th f sv tg else negb (holds th f sv tg).
+Proof.
+  induction n as [|n IH]; [reflexivity|].
+  change (Nat.iter (S n) FNot f) with (FNot (Nat.iter n FNot f)). cbn [holds]. rewrite IH.
+  rewrite Nat.even_succ, <- Nat.negb_even. destruct (Nat.even n); cbn [negb]; [reflexivity | apply negb_involutive].
+Qed.
+
+Theorem filt_not_tower th f r n :
+  filt th (Nat.iter n FNot f) r = if Nat.even n then filt th f r else negb (filt th f r).
+Proof. rewrite !filt_holds. apply holds_not_tower. Qed.
